@@ -80,6 +80,17 @@ Definition step (st : rstate) (op : list tok) : rstate * list tok :=
         let st' := mkR h true (Z.to_nat c) (map (fun i => (i, [])) (seq 0 (Z.to_nat w))) in
         (st', obs_of st' h [])
       | _ => bad end
+    else if name =? "hub2" then
+      (* the hub a new main process re-creates from the UpgradeData of an idle one in which
+         worker s (if any) was stopped *)
+      match args with
+      | [TN w; TN t; TN c; TN sw] =>
+        let h0 := init (Z.to_nat w) (Z.to_N (t * 1000)) in
+        let h1 := if Z.ltb sw 0 then h0 else fst (apply_event h0 (EWorkerClosed (Z.to_nat sw))) in
+        let h := handover h1 in
+        let st' := mkR h true (Z.to_nat c) (map (fun i => (i, [])) (seq 0 (Z.to_nat w))) in
+        (st', TN 1 :: obs_of st' h [])
+      | _ => bad end
     else if name =? "req" then
       match args with
       | TN c :: TS v :: rest =>
